@@ -459,6 +459,17 @@ struct MetaWorld {
   enum { R = 3 };
   HMeta *obj[R + 1] = {0};
   bool held[R + 1] = {false};
+  uintptr_t bias[R + 1] = {0};  // preset counters: (bias) further holders that never let go during the history
+  void preset(int r, uintptr_t start) { bias[r] = start - 1; obj[r]->refs = start; }
+  // the preset holders let go: call after every real reference was dropped
+  void drop_presets() {
+    for (int r = 1; r <= R; r++) if (bias[r]) {
+      VP_CHECK(c, obj[r]->refs == bias[r] && !obj[r]->destroyed, obj[r]->refs > bias[r] ? "not-released" : "released-early", "metatype #%d: counter %#lx after all real references were dropped, %#lx preset holders remain", r, (unsigned long)obj[r]->refs, (unsigned long)bias[r]);
+      obj[r]->refs = 1;
+      bias[r] = 0;
+      MetaPool::s_unref(obj[r]);
+    }
+  }
   MetaWorld(Ctx &ctx) : c(ctx) {
     W = &obs;
     for (int r = 1; r <= R; r++) { obj[r] = obs.metas.create(); held[r] = true; }
@@ -468,12 +479,13 @@ struct MetaWorld {
   void verify(const char *op, const long cnt[R + 1]) {
     obs.viol.raise(c, op);
     for (int r = 1; r <= R; r++) {
-      long expect = cnt[r] + (held[r] ? 1 : 0);
-      c.logf("    metatype #%d: %ld reference slot(s) + %d harness reference, counter %lu, destructor ran %d time(s)", r, cnt[r], held[r] ? 1 : 0, (unsigned long)obj[r]->refs, obj[r]->destroyed);
+      long real = cnt[r] + (held[r] ? 1 : 0);
+      uintptr_t expect = (uintptr_t)real + bias[r];
+      c.logf("    metatype #%d: %ld reference slot(s) + %d harness reference%s, counter %#lx, destructor ran %d time(s)", r, cnt[r], held[r] ? 1 : 0, bias[r] ? " + preset holders" : "", (unsigned long)obj[r]->refs, obj[r]->destroyed);
       VP_CHECK(c, obj[r]->destroyed <= 1, "destroyed-twice", "after %s: destructor of metatype #%d ran %d times", op, r, obj[r]->destroyed);
-      VP_CHECK(c, (long)obj[r]->refs == expect, (long)obj[r]->refs > expect ? "not-released" : "released-early",
-               "after %s: metatype #%d has reference count %lu but %ld reference(s) are held", op, r, (unsigned long)obj[r]->refs, expect);
-      VP_CHECK(c, (obj[r]->destroyed == 1) == (expect == 0), expect ? "released-early" : "not-released", "after %s: metatype #%d: %ld reference(s) held, destructor ran %d time(s)", op, r, expect, obj[r]->destroyed);
+      VP_CHECK(c, obj[r]->refs == expect, obj[r]->refs > expect ? "not-released" : "released-early",
+               "after %s: metatype #%d has reference count %#lx but %ld reference(s) are held (preset holders %#lx)", op, r, (unsigned long)obj[r]->refs, real, (unsigned long)bias[r]);
+      VP_CHECK(c, (obj[r]->destroyed == 1) == (expect == 0), expect ? "released-early" : "not-released", "after %s: metatype #%d: %ld reference(s) held, destructor ran %d time(s)", op, r, real, obj[r]->destroyed);
     }
   }
   int draw_obj() {
@@ -501,6 +513,13 @@ static void run_metaref(Ctx &c, const type_traits *mt = mpt_meta_reference_trait
   const type_traits alias(mt->size, mt->fini, mt->init);
   const type_traits *other = (mt == mpt_meta_reference_traits()) ? mpt_input_reference_traits() : mpt_meta_reference_traits();
   auto holds_refs = [&](const type_traits *t) { return t && (t->fini == mt->fini || t->fini == other->fini); };
+  if (retype) {  // variant: counters preset so that copies cross 2^32, 2^33 and reach the maximum
+    static const uintptr_t starts[] = {1, 1, 1, 0xfffffffeull, 0xffffffffull, 0x100000000ull, 0x100000001ull, 0x1ffffffffull, UINTPTR_MAX - 1, 0xfffffffdull};
+    for (int r = 1; r <= MetaWorld::R; r++) {
+      uintptr_t st = starts[c.pick(10)];
+      if (st > 1) { w.preset(r, st); c.label(st == UINTPTR_MAX - 1 ? "metaref:preset-max-1" : "metaref:preset-near-2^32"); }
+    }
+  }
   auto check = [&](const char *op) {
     long cnt[MetaWorld::R + 1] = {0};
     for (void *p : slot) { int r = w.index(p); VP_CHECK(c, r >= 0, "harness", "unknown pointer in slot"); cnt[r]++; }
@@ -557,6 +576,7 @@ static void run_metaref(Ctx &c, const type_traits *mt = mpt_meta_reference_trait
         else src = slot[c.pick(4)];
         bool refuse = src && c.chance(24);
         w.obs.metas.refuse_addref = refuse;
+        if (src && ((HMeta *)src)->refs == UINTPTR_MAX) { refuse = true; c.label("metaref:raise-at-maximum"); }  // the counter itself refuses
         bool null_src = c.chance(16);
         int r = mt->init(&slot[s], null_src ? 0 : &src);
         w.obs.metas.refuse_addref = false;
@@ -625,6 +645,7 @@ static void run_metaref(Ctx &c, const type_traits *mt = mpt_meta_reference_trait
         int r = w.draw_obj();
         if (!r || !w.held[r]) break;
         uintptr_t v = MetaPool::s_addref(w.obj[r]);
+        if (!v) { check("harness addref at the maximum"); break; }  // preset counter at its maximum: refused, nothing taken
         VP_CHECK(c, v == w.obj[r]->refs, "harness", "addref");
         MetaPool::s_unref(w.obj[r]);
         check("harness addref+unref");
@@ -636,6 +657,8 @@ static void run_metaref(Ctx &c, const type_traits *mt = mpt_meta_reference_trait
   for (auto &p : slot) { mt->fini(&p); p = 0; }
   for (int r = 1; r <= MetaWorld::R; r++) if (w.held[r]) { MetaPool::s_unref(w.obj[r]); w.held[r] = false; }
   check("final release");
+  w.drop_presets();
+  check("preset holders released");
   if (nontrivial) c.nontrivial();
 }
 
@@ -1565,11 +1588,154 @@ static void run_notify(Ctx &c) {
   if (nontrivial) c.nontrivial();
 }
 
+// ------------------------------------------------------------------ linked objects: reference<T> moves whose source lives inside the target's referent
+struct Node;
+struct NodeState { long refs; int destroyed; int id; };
+static std::map<const Node *, NodeState> *g_nodes;
+struct Node {
+  reference<Node> next;  // an object owning a reference on its successor
+  void unref() {
+    NodeState &s = (*g_nodes)[this];
+    if (s.destroyed || !s.refs) { g_viol->rec("unref-after-destroy", "unref() on node #%d after its last reference was dropped", s.id); return; }
+    if (!--s.refs) { s.destroyed++; next.set_instance(0); }  // destruction releases what the object owns
+  }
+  uintptr_t addref() {
+    NodeState &s = (*g_nodes)[this];
+    if (s.destroyed) { g_viol->rec("addref-after-destroy", "addref() on node #%d after it was destroyed", s.id); return 0; }
+    return ++s.refs;
+  }
+};
+
+static void run_chain(Ctx &c) {
+  Viol viol;
+  g_viol = &viol;
+  std::map<const Node *, NodeState> table;
+  g_nodes = &table;
+  struct Guard { ~Guard() { g_nodes = 0; g_viol = 0; } } guard;
+  enum { N = 4, H = 3 };
+  // storage outlives every node (late accesses are recorded, not crashes); a destroyed node's next is empty
+  std::vector<std::unique_ptr<Node>> store;
+  Node *node[N];
+  long held[N];
+  for (int k = 0; k < N; k++) { store.emplace_back(new Node()); node[k] = store.back().get(); table[node[k]] = NodeState{1, 0, k}; held[k] = 1; }
+  reference<Node> *h = new reference<Node>[H];
+  bool nontrivial = false;
+  c.label("chain");
+  auto index = [&](const Node *p) { for (int k = 0; k < N; k++) if (p == node[k]) return k; return -1; };
+  auto name = [&](const Node *p) { return p ? "node #" + std::to_string(index(p)) : std::string("nothing"); };
+  auto check = [&](const char *op) {
+    viol.raise(c, op);
+    long cnt[N] = {0};
+    for (int i = 0; i < H; i++) if (Node *p = h[i].instance()) { int k = index(p); VP_CHECK(c, k >= 0, "unknown-reference", "after %s: handle %d holds an unknown pointer", op, i); cnt[k]++; }
+    for (int k = 0; k < N; k++) if (Node *p = node[k]->next.instance()) {
+      int j = index(p);
+      VP_CHECK(c, j >= 0, "unknown-reference", "after %s: node #%d names an unknown successor", op, k);
+      VP_CHECK(c, !table[node[k]].destroyed, "not-released", "after %s: destroyed node #%d still holds a reference on node #%d", op, k, j);
+      cnt[j]++;
+    }
+    for (int k = 0; k < N; k++) {
+      NodeState &s = table[node[k]];
+      long expect = cnt[k] + held[k];
+      c.logf("    node #%d: %ld handle/successor reference(s) + %ld harness reference(s), counter %ld, destroyed %d, next -> %s", k, cnt[k], held[k], s.refs, s.destroyed, name(node[k]->next.instance()).c_str());
+      VP_CHECK(c, s.destroyed <= 1, "destroyed-twice", "after %s: node #%d destroyed %d times", op, k, s.destroyed);
+      VP_CHECK(c, s.refs == expect, s.refs > expect ? "not-released" : "released-early", "after %s: node #%d has reference count %ld but %ld reference(s) name it", op, k, s.refs, expect);
+      VP_CHECK(c, (s.destroyed == 1) == (expect == 0), expect ? "released-early" : "not-released", "after %s: node #%d: %ld reference(s) held, destroyed %d time(s)", op, k, expect, s.destroyed);
+    }
+  };
+  auto alive = [&](int k) { return !table[node[k]].destroyed; };
+  check("start");
+  while (c.more()) {
+    int i = (int)c.pick(H), k = (int)c.pick(N);
+    switch (c.weighted({8, 8, 10, 5, 3, 3, 4, 3})) {
+      case 0: {  // a handle takes a node (extra reference handed over)
+        if (!alive(k) || !held[k]) break;
+        node[k]->addref();
+        c.logf("handle%d.set_instance(node #%d)  (held %s)", i, k, name(h[i].instance()).c_str());
+        if (h[i].instance()) nontrivial = true;
+        h[i].set_instance(node[k]);
+        check("set_instance");
+        break;
+      }
+      case 1: {  // link: a node's successor reference
+        int j = (int)c.pick(N);
+        if (!alive(k) || !alive(j) || !held[j] || j == k) break;
+        // no cycles: j must not reach k
+        bool cyc = false;
+        for (Node *p = node[j]; p; p = p->next.instance()) if (p == node[k]) cyc = true;
+        if (cyc) break;
+        node[j]->addref();
+        c.logf("node #%d.next.set_instance(node #%d)  (was %s)", k, j, name(node[k]->next.instance()).c_str());
+        node[k]->next.set_instance(node[j]);
+        check("link");
+        break;
+      }
+      case 2: {  // advance: the source handle is a member of the object the target gives up
+        Node *cur = h[i].instance();
+        if (!cur) break;
+        c.logf("handle%d = std::move(handle%d.instance()->next)  (%s -> %s)", i, i, name(cur).c_str(), name(cur->next.instance()).c_str());
+        bool last = table[cur].refs == 1;
+        h[i] = std::move(cur->next);
+        nontrivial = true;
+        c.label(last ? "chain:advance-from-last-owner" : "chain:advance");
+        check("advance");
+        break;
+      }
+      case 3: {  // move between handles, also onto itself
+        int j = (int)c.pick(H);
+        c.logf("handle%d = std::move(handle%d)  (%s <- %s)", i, j, name(h[i].instance()).c_str(), name(h[j].instance()).c_str());
+        if (h[i].instance()) nontrivial = true;
+        h[i] = std::move(h[j]);
+        c.label(i == j ? "chain:self-move" : "chain:move");
+        check("move assign");
+        break;
+      }
+      case 4: {  // construction from an rvalue (reference<T> declares no move constructor: a copy)
+        int j = (int)c.pick(H);
+        c.logf("reference tmp(std::move(handle%d)); handle%d = tmp", j, i);
+        {
+          reference<Node> tmp(std::move(h[j]));
+          h[i] = tmp;
+        }
+        check("construct from rvalue");
+        break;
+      }
+      case 5: {  // copy assign
+        int j = (int)c.pick(H);
+        c.logf("handle%d = handle%d", i, j);
+        h[i] = h[j];
+        check("copy assign");
+        break;
+      }
+      case 6: {  // release a handle
+        c.logf("handle%d released (%s)", i, name(h[i].instance()).c_str());
+        if (h[i].instance()) nontrivial = true;
+        h[i].set_instance(0);
+        check("release");
+        break;
+      }
+      default: {  // the harness drops its own reference
+        if (!held[k]) break;
+        c.logf("harness drops its reference on node #%d", k);
+        node[k]->unref();
+        held[k] = 0;
+        check("harness reference dropped");
+        break;
+      }
+    }
+  }
+  for (int i = 0; i < H; i++) h[i].set_instance(0);
+  for (int k = 0; k < N; k++) if (held[k]) { node[k]->unref(); held[k] = 0; }
+  check("final release");
+  delete[] h;
+  if (nontrivial) c.nontrivial();
+}
+
 static void run(Ctx &c) {
   // slots 8 and 10 (second slots of the two cxxref kinds, used by no corpus file) now select the item_array and input reference kinds
   // slots 2 and 4 (second slots of buffer / metaref, used by no corpus file): variants with mpt_array_reserve re-typing
   // slots 6 and 12 (second slots of convert / meta, used by no corpus file): notifier kind, buffer variant with memory mapped buffers
-  static const uint8_t map[16] = {0, 1, 12, 2, 11, 3, 13, 4, 9, 5, 10, 6, 14, 7, 7, 8};
+  // slot 14 (second slot of reply, used by no corpus file): linked objects / reference<T> moves
+  static const uint8_t map[16] = {0, 1, 12, 2, 11, 3, 13, 4, 9, 5, 10, 6, 14, 7, 15, 8};
   switch (map[c.u8() % 16]) {
     case 0: run_counter(c); break;
     case 1: run_buffer(c); break;
@@ -1585,6 +1751,7 @@ static void run(Ctx &c) {
     case 12: run_buffer(c, true); break;
     case 13: run_notify(c); break;
     case 14: run_buffer(c, false, true); break;
+    case 15: run_chain(c); break;
     default: run_rawdata(c); break;
   }
 }
